@@ -112,3 +112,47 @@ _add("RetractionState.RetractionState._addCommands")
 _add("GcodeHandlers.GcodeHandlers._handle_G10", cmd=lambda f: f.a.cmd)
 _add("GcodeHandlers.GcodeHandlers._handle_G11", cmd=lambda f: f.a.cmd)
 _add("GcodeHandlers.GcodeHandlers.handleAtCommand", getter=lambda f: list(f.a.commInstance.sent))
+
+
+# ---------------------------------------------------------------------------------------------- formatNumber itself
+def _format_number_contract():
+    """formatNumber over the assumed contracts of str / Decimal / format (pyvc/pynum.py): for every finite float and
+    every int the result is plain decimal text (no exponent) denoting exactly the value; a string argument (the
+    free-text parameter of a merged command) comes back unchanged; nothing is raised.  Callers keep seeing formatNumber
+    through its summary (a 'plain' hole)."""
+    c = REGISTRY.get("GcodeParser.formatNumber")
+
+    def pre(b):
+        k = b.choose(3, "argument type")
+        if b.native:
+            v = [float(b.real("value")), int(b.real("value")), b.string("text")][k]
+            return {"self": None, "args": {"value": v}, "ghost": {"kind": k}}
+        from pyvc.pynum import PyNum
+        v = [PyNum("float", b.real("value")), PyNum("int", b.int("value")), b.string("text")][k]
+        return {"self": None, "args": {"value": v}, "ghost": {"kind": k}}
+    c.pre(pre)
+    c.modifies()
+
+    def plain(f):
+        k = f.g["kind"]
+        if getattr(f, "native", False):
+            import re
+            from fractions import Fraction
+            from decimal import Decimal
+            if k == 2:
+                return f.result == f.a.value
+            return bool(re.match(r"^-?[0-9]+(\\.[0-9]+)?$", f.result)) and Fraction(Decimal(f.result)) == Fraction(Decimal(repr(f.a.value)))
+        import z3
+        from pyvc.pynum import PLAIN, DecVal
+        from pyvc.stubs import sstr_to_z3
+        r = sstr_to_z3(f.result)
+        if r is None:
+            return False
+        if k == 2:
+            return r == f.a.value
+        t = f.a.value.term
+        return And(z3.InRe(r, PLAIN), DecVal(r) == (z3.ToReal(t) if z3.is_int(t) else t))
+    c.ensures("C07.formatNumber-plain-decimal-same-value", plain, props=("C07", "C09"))
+
+
+_format_number_contract()
